@@ -43,7 +43,16 @@ STMT_BODY_FIELDS = {"body", "orelse", "finalbody"}
 
 
 def constructions(mod):
-    """Yield (call, [class names], kwargs: {field: value_expr}, splats: [expr], pos_arg or None)."""
+    """Yield (call, [class names], kwargs: {field: value_expr}, splats: [expr], pos_arg or None).  Cached per module."""
+    cache = getattr(mod, "_constructions", None)
+    if cache is None:
+        cache = list(_constructions(mod))
+        mod._constructions = cache
+    for call, classes, kwargs, splats, pos, via in cache:
+        yield call, list(classes), dict(kwargs), list(splats), pos, via
+
+
+def _constructions(mod):
     for n in ast.walk(mod.tree):
         if not isinstance(n, ast.Call):
             continue
